@@ -485,13 +485,16 @@ End Oracles.
 
 (** Oracle tables recorded from the implementation. *)
 Definition escape_table : Type := list (str * str).
-Definition compile_table : Type := list (list str * list (list node)).
+(** [None] = compile raised on these sources. *)
+Definition compile_table : Type := list (list str * option (list (list node))).
 Definition render_table : Type := list (num * str * list node * list str).
 
+(** A missing entry (the model asked for sources the harness did not compile) gives no blocks
+    at all, which no implementation outcome agrees with. *)
 Definition lookup_compile (tb : compile_table) (srcs : list str) : option (list (list node)) :=
   match find (fun e => list_eqb str_eqb (fst e) srcs) tb with
-  | Some e => Some (snd e)
-  | None => None
+  | Some e => snd e
+  | None => Some []
   end.
 
 Definition lookup_escape (tb : escape_table) (x : str) : str :=
@@ -539,13 +542,17 @@ Fixpoint all2 {A B} (f : A -> B -> bool) (a : list A) (b : list B) : bool :=
   | _, _ => false
   end.
 
-Definition check_md (i : md_in) (o : md_obs) : bool :=
-  match run_md i with
-  | MOk (m, htmls) =>
+(** What was observed: a result, or [compile] raising inside compile_markdown. *)
+Inductive md_outcome := ObsOk (o : md_obs) | ObsCompileError.
+
+Definition check_md (i : md_in) (oc : md_outcome) : bool :=
+  match run_md i, oc with
+  | MOk (m, htmls), ObsOk o =>
       Bool.eqb (o_title m) (ob_title o) && option_eqb N.eqb (o_serv m) (ob_serv o)
       && list_eqb (list_eqb (list_eqb node_same)) (md_recipes m) (ob_recipes o)
       && all2 mres_str_eqb htmls (ob_html o)
-  | MErr _ => false
+  | MErr ECompile, ObsCompileError => true
+  | _, _ => false
   end.
 
 Definition show_md (i : md_in) :=
